@@ -172,3 +172,75 @@ __CPROVER_assigns()
 __CPROVER_ensures(__CPROVER_return_value == SCALAR_OK)
 //@ end
 
+//@ function PedersenVSS__CheckElement
+//@ contract
+__CPROVER_requires(__CPROVER_is_fresh(self, sizeof(*self)) && __CPROVER_is_fresh(a, sizeof(*a)))
+__CPROVER_assigns()
+/* C06: element checks accept exactly the members of the order-q subgroup in the range 1..p-1 */
+__CPROVER_ensures(__CPROVER_return_value == (0 < V(a) && V(a) < P && POWM(V(a), Q, P) == 1))
+//@ end
+
+//@ function GennaroJareckiKrawczykRabinDKG__CheckElement
+//@ contract
+__CPROVER_requires(__CPROVER_is_fresh(self, sizeof(*self)) && __CPROVER_is_fresh(a, sizeof(*a)))
+__CPROVER_assigns()
+/* C06: element checks accept exactly the members of the order-q subgroup in the range 1..p-1 */
+__CPROVER_ensures(__CPROVER_return_value == (0 < V(a) && V(a) < P && POWM(V(a), Q, P) == 1))
+//@ end
+
+//@ function CanettiGennaroJareckiKrawczykRabinRVSS__CheckElement
+//@ contract
+__CPROVER_requires(__CPROVER_is_fresh(self, sizeof(*self)) && __CPROVER_is_fresh(a, sizeof(*a)))
+__CPROVER_assigns()
+/* C06: element checks accept exactly the members of the order-q subgroup in the range 1..p-1 */
+__CPROVER_ensures(__CPROVER_return_value == (0 < V(a) && V(a) < P && POWM(V(a), Q, P) == 1))
+//@ end
+
+//@ function CanettiGennaroJareckiKrawczykRabinZVSS__CheckElement
+//@ contract
+__CPROVER_requires(__CPROVER_is_fresh(self, sizeof(*self)) && __CPROVER_is_fresh(a, sizeof(*a)))
+__CPROVER_assigns()
+/* C06: element checks accept exactly the members of the order-q subgroup in the range 1..p-1 */
+__CPROVER_ensures(__CPROVER_return_value == (0 < V(a) && V(a) < P && POWM(V(a), Q, P) == 1))
+//@ end
+
+//@ function CanettiGennaroJareckiKrawczykRabinDKG__CheckElement
+//@ contract
+__CPROVER_requires(__CPROVER_is_fresh(self, sizeof(*self)) && __CPROVER_is_fresh(a, sizeof(*a)))
+__CPROVER_assigns()
+/* C06: element checks accept exactly the members of the order-q subgroup in the range 1..p-1 */
+__CPROVER_ensures(__CPROVER_return_value == (0 < V(a) && V(a) < P && POWM(V(a), Q, P) == 1))
+//@ end
+
+//@ function CanettiGennaroJareckiKrawczykRabinDSS__CheckElement
+//@ contract
+__CPROVER_requires(__CPROVER_is_fresh(self, sizeof(*self)) && __CPROVER_is_fresh(a, sizeof(*a)))
+__CPROVER_assigns()
+/* C06: element checks accept exactly the members of the order-q subgroup in the range 1..p-1 */
+__CPROVER_ensures(__CPROVER_return_value == (0 < V(a) && V(a) < P && POWM(V(a), Q, P) == 1))
+//@ end
+
+//@ function NaorPinkasEOTP__CheckElement
+//@ contract
+__CPROVER_requires(__CPROVER_is_fresh(self, sizeof(*self)) && __CPROVER_is_fresh(a, sizeof(*a)))
+__CPROVER_assigns()
+/* C06: element checks accept exactly the members of the order-q subgroup in the range 1..p-1 */
+__CPROVER_ensures(__CPROVER_return_value == (0 < V(a) && V(a) < P && POWM(V(a), Q, P) == 1))
+//@ end
+
+//@ function JareckiLysyanskayaRVSS__CheckElement
+//@ contract
+__CPROVER_requires(__CPROVER_is_fresh(self, sizeof(*self)) && __CPROVER_is_fresh(a, sizeof(*a)))
+__CPROVER_assigns()
+/* C06: element checks accept exactly the members of the order-q subgroup in the range 1..p-1 */
+__CPROVER_ensures(__CPROVER_return_value == (0 < V(a) && V(a) < P && POWM(V(a), Q, P) == 1))
+//@ end
+
+//@ function HooghSchoenmakersSkoricVillegasVRHE__CheckElement
+//@ contract
+__CPROVER_requires(__CPROVER_is_fresh(self, sizeof(*self)) && __CPROVER_is_fresh(a, sizeof(*a)))
+__CPROVER_assigns()
+/* C06: element checks accept exactly the members of the order-q subgroup in the range 1..p-1 */
+__CPROVER_ensures(__CPROVER_return_value == (0 < V(a) && V(a) < P && POWM(V(a), Q, P) == 1))
+//@ end
+
